@@ -17,7 +17,7 @@ import json,sys
 for l in open(sys.argv[1]):
     try: m=json.loads(l)
     except Exception: continue
-    if m.get('reason')=='compiler-artifact' and m.get('executable') and m['target']['name']=='harness': print(m['executable'])
+    if m.get('reason')=='compiler-artifact' and m.get('executable'): print(m['executable'])
 PY
 )
 exe=$(echo "$exe" | tail -1)
